@@ -363,6 +363,20 @@ def eval_c17(ctx, tr, fs, finished):
             ctx.witness('wal written')
 
 
+# ------------------------------------------------------------------ C16 (generic part: scenarios with a 'stop' step)
+def eval_c16(ctx, tr):
+    for r in tr.recs:
+        if r.kind != 'STOPE':
+            continue
+        ctx.check('C16.bounded', r.t - r.t0 <= 1, bus=r.bus, why='stop() took longer than timeout + 1 s')
+        late = [e for e in tr.E if e.bus == r.bus and e.seq > r.seq]
+        ctx.check('C16.no_start_after', not late, bus=r.bus, late=[e.h for e in late])
+        ctx.witness('stop returned')
+    for r in tr.recs:
+        if r.kind == 'STOPB' and not any(x.kind == 'STOPE' and x.bus == r.bus and x.seq > r.seq for x in tr.recs):
+            ctx.check('C16.returns', False, bus=r.bus, why='stop() still blocked at the virtual horizon')
+
+
 # ------------------------------------------------------------------ C15
 def eval_c15(ctx, tr):
     for ab in tr.AB:
@@ -559,6 +573,7 @@ def evaluate(ctx, finished):
     eval_c11(ctx, tr, fs)
     eval_c14(ctx, tr, fs, finished)
     eval_c17(ctx, tr, fs, finished)
+    eval_c16(ctx, tr)
     eval_c15(ctx, tr)
     ctx.check('GEN.main_finished', bool(finished))
     return tr
